@@ -172,6 +172,9 @@ Proof.
       destruct (Z.ltb_spec (s_nframes s * s_channels s) 0); [lia|].
       replace ((pre ++ H) ++ E ++ pairs_of (s_samples16 s) ++ post) with ((pre ++ H ++ E) ++ pairs_of (s_samples16 s) ++ post)
         by (repeat rewrite <- app_assoc; reflexivity).
+      destruct (Z.gtb_spec (zlen pre + 22 + 42 + s_nframes s * s_channels s * 2) (zlen ((pre ++ H ++ E) ++ pairs_of (s_samples16 s) ++ post))) as [Hgt|_].
+      { rewrite !zlen_app, HL, HE, zlen_pairs in Hgt. pose proof (zlen_nonneg post). lia. }
+      cbn [orb].
       replace (zlen pre + 22 + 42) with (zlen (pre ++ H ++ E)) by (rewrite !zlen_app, HL, HE; lia).
       rewrite <- H16. rewrite swap_loop_pairs.
       * cbn [bind]. rewrite <- Hb. reflexivity.
